@@ -50,7 +50,7 @@ MacRoutes == {"free-mac", "free-mac0", "mac-lit", "mac0-lit", "mac-builder", "ma
 RbxRoutes == {"rbx-c-mac", "rbx-c-rec", "rbx-c-encrypt0", "rbx-t-enc", "rbx-t-rec", "rbx-t-encrypt", "rbx-t-encrypt0"}
 EncRoutes == {"free-encrypt", "free-encrypt0", "free-enc-rec", "free-mac-rec", "free-rec-rec", "encrypt-lit", "encrypt0-lit",
               "recipient-lit-enc", "recipient-lit-mac", "recipient-lit-rec", "recipient-lit-badctx", "recipient-lit-badctx0",
-              "encrypt-builder", "encrypt0-builder", "recipient-builder", "recipient-builder-badctx", "encrypt-builder-try", "recipient-builder-try"}
+              "encrypt-builder", "encrypt0-builder", "recipient-builder", "recipient-builder-badctx", "encrypt-builder-try", "recipient-builder-try", "encrypt0-builder-try"}
              \cup RbxRoutes
 Routes == CASE Fam = "sig" -> SigRoutes [] Fam = "mac" -> MacRoutes [] Fam = "enc" -> EncRoutes
 
@@ -157,6 +157,8 @@ Steps ==
          <<New("CoseRecipient"), SetProt,
            [ev |-> "call", m |-> IF st.r = "recipient-builder-try" THEN "try_create_ciphertext" ELSE "create_ciphertext", pt |-> Pl, aad |-> Aad, res |-> ROk,
             ctx |-> IF st.r = "recipient-builder-badctx" THEN "CoseEncrypt" ELSE IF st.r = "recipient-builder-try" THEN "MacRecipient" ELSE "EncRecipient"]>>
+    [] st.r = "encrypt0-builder-try" ->
+         <<New("CoseEncrypt0"), SetProt, [ev |-> "call", m |-> "try_create_ciphertext", pt |-> Pl, aad |-> Aad, res |-> ROk], [ev |-> "build"]>>
     [] st.r \in RbxRoutes ->
          <<New("CoseRecipient"), SetProt,
            [ev |-> "call", m |-> RbxTab[st.r][1], pt |-> Pl, aad |-> Aad, res |-> IF st.r = "rbx-t-rec" THEN RErr ELSE ROk, ctx |-> RbxTab[st.r][2]]>>
@@ -165,7 +167,7 @@ Steps ==
 Applicable == IF st.r \in {"sign1-builder", "sign1-builder-detached", "sign1-builder-try", "sign-builder", "sign-builder-detached", "sign-builder-try",
                            "sign1-builder-try-detached", "sign-builder-try-detached",
                            "mac-builder", "mac0-builder", "mac-builder-try", "mac0-builder-try", "encrypt-builder", "encrypt0-builder",
-                           "encrypt-builder-try", "recipient-builder", "recipient-builder-badctx", "recipient-builder-try"} \cup RbxRoutes
+                           "encrypt-builder-try", "recipient-builder", "recipient-builder-badctx", "recipient-builder-try", "encrypt0-builder-try"} \cup RbxRoutes
               THEN Body.orig = <<>> ELSE TRUE
 
 Observed == RunObs(InitState, Steps, <<>>)
@@ -177,7 +179,7 @@ CtxText == CASE st.r \in {"free-sign1", "free-sign1-withsign", "sign1-lit", "sig
              [] st.r \in {"free-mac", "mac-lit", "mac-builder", "mac-builder-try"} -> "MAC"
              [] st.r \in {"free-mac0", "mac0-lit", "mac0-builder", "mac0-builder-try"} -> "MAC0"
              [] st.r \in {"free-encrypt", "encrypt-lit", "encrypt-builder", "encrypt-builder-try"} -> "Encrypt"
-             [] st.r \in {"free-encrypt0", "encrypt0-lit", "encrypt0-builder"} -> "Encrypt0"
+             [] st.r \in {"free-encrypt0", "encrypt0-lit", "encrypt0-builder", "encrypt0-builder-try"} -> "Encrypt0"
              [] st.r \in {"free-enc-rec", "recipient-lit-enc", "recipient-builder", "rbx-t-enc"} -> "Enc_Recipient"
              [] st.r \in {"free-mac-rec", "recipient-lit-mac", "recipient-builder-try", "rbx-c-mac"} -> "Mac_Recipient"
              [] st.r \in {"free-rec-rec", "recipient-lit-rec", "rbx-c-rec", "rbx-t-rec"} -> "Rec_Recipient"
